@@ -15,6 +15,7 @@ import SqiProofs.GfFp2Batch
 import SqiProofs.Primes
 import SqiProofs.GfX86Refines
 import SqiProofs.GfX86Inv
+import SqiGen.GfGcd
 
 namespace SqiProps.C07
 open SqiModel.Gf SqiProofs.GfRef SqiProofs.GfMont SqiProofs.GfFp2
@@ -390,6 +391,39 @@ theorem x86_backend_refines [Fact P.q.Prime] (hc : X86Cited P) :
     FpRefines (X86.ops P) P.q (fun a => a < 2 ^ P.B) (xval P) := x86_refines hP hc
 
 end x86
+
+/-! ### iteration budget of the binary GCD — tie T (`SqiGen.GfGcd` is re-extracted from gf5248.c / gf65376.c /
+gf27500.c on every run by tools/translate/gfgcd.py) -/
+
+/-- the loop counts of the model (`X86Params.outer`, `.final`, 31 = 29 + 2 inner steps) are the ones in the C text,
+    for `gf*_div` (hence `gf*_invert`) and for `gf*_legendre`, at the three levels -/
+theorem gcd_model_matches_code :
+    (SqiGen.GfGcd.L1.div_outer = x1.outer ∧ SqiGen.GfGcd.L1.div_inner = 31 ∧ SqiGen.GfGcd.L1.div_final = x1.final ∧
+     SqiGen.GfGcd.L1.leg_outer = x1.outer ∧ SqiGen.GfGcd.L1.leg_innerA = 29 ∧ SqiGen.GfGcd.L1.leg_innerB = 2 ∧
+     SqiGen.GfGcd.L1.leg_final = x1.final) ∧
+    (SqiGen.GfGcd.L3.div_outer = x3.outer ∧ SqiGen.GfGcd.L3.div_inner = 31 ∧ SqiGen.GfGcd.L3.div_final = x3.final ∧
+     SqiGen.GfGcd.L3.leg_outer = x3.outer ∧ SqiGen.GfGcd.L3.leg_innerA = 29 ∧ SqiGen.GfGcd.L3.leg_innerB = 2 ∧
+     SqiGen.GfGcd.L3.leg_final = x3.final) ∧
+    (SqiGen.GfGcd.L5.div_outer = x5.outer ∧ SqiGen.GfGcd.L5.div_inner = 31 ∧ SqiGen.GfGcd.L5.div_final = x5.final ∧
+     SqiGen.GfGcd.L5.leg_outer = x5.outer ∧ SqiGen.GfGcd.L5.leg_innerA = 29 ∧ SqiGen.GfGcd.L5.leg_innerB = 2 ∧
+     SqiGen.GfGcd.L5.leg_final = x5.final) := by decide
+
+/-- **budget**: inversion/division and Legendre perform exactly `2·B − 2` binary-GCD steps (B = 251 / 383 / 505:
+    500 / 764 / 1008), the bound of Pornin's analysis for a modulus below `2^B` -/
+theorem gcd_budget :
+    SqiGen.GfGcd.L1.div_steps = 2 * x1.B - 2 ∧ SqiGen.GfGcd.L1.leg_steps = 2 * x1.B - 2 ∧
+    SqiGen.GfGcd.L3.div_steps = 2 * x3.B - 2 ∧ SqiGen.GfGcd.L3.leg_steps = 2 * x3.B - 2 ∧
+    SqiGen.GfGcd.L5.div_steps = 2 * x5.B - 2 ∧ SqiGen.GfGcd.L5.leg_steps = 2 * x5.B - 2 := by decide
+
+/-- the final correction factor of `gf*_div` (`INVT…`) is `2^(2·64n − steps)`: it cancels exactly the injected halvings -/
+theorem gcd_invt :
+    x1.invt = 2 ^ (128 * x1.n - SqiGen.GfGcd.L1.div_steps) ∧ x3.invt = 2 ^ (128 * x3.n - SqiGen.GfGcd.L3.div_steps) ∧
+    x5.invt = 2 ^ (128 * x5.n - SqiGen.GfGcd.L5.div_steps) := by decide
+
+/-- the `enough` field of the cited hypothesis `PorninConvergence P (gcdSteps P)` holds at the three levels -/
+theorem gcd_steps_enough (P : X86Params) (hP : SqiProofs.GfX86.IsLvl P) :
+    2 * P.B - 2 ≤ SqiProofs.GfX86Refines.gcdSteps P := by
+  rcases hP with rfl | rfl | rfl <;> decide
 
 /-- the x86 moduli are the ref moduli (hence prime) -/
 theorem x86_q : x1.q = lvl1.p ∧ x3.q = lvl3.p ∧ x5.q = lvl5.p := by decide +kernel
